@@ -29,16 +29,20 @@ TECHNIQUE = ("Lean 4 proof over a hand transcription of KeyTable / StylesheetRoo
              "translators regenerate the source-dependent facts (FunctionKey guard, the two getNodeSetByKey overloads, the "
              "context list of `use`); three-way correspondence run (real key() / in-transformation brute force / compiled "
              "Lean model), also on the ASan+UBSan build in the thorough tier")
-LEVEL_TEXT = ("Machine-checked for all inputs (Props/C15.lean, 22 theorems): the transcribed KeyTable constructor walk tests every "
+LEVEL_TEXT = ("Machine-checked for all inputs (Props/C15.lean, 25 theorems, and key_spec_c09 in C15/C09Instance.lean): the transcribed KeyTable constructor walk tests every "
               "node and attribute exactly once in document order; the table it builds answers getNodeSetByKey(name, value) with "
               "the document-order list of the nodes that match a declaration of that name and have the value among their use "
               "values (XSLT 1.0 12.2), null exactly for undeclared names; with strip-aware matching the answer is the "
-              "specification on the stripped tree; declarations of all imported modules are merged; the binary insertion-point "
+              "specification on the stripped tree, the values of use (., *, text(), @*; strip-aware string-value as in C13) "
+              "included; declarations of all imported modules are merged; the binary insertion-point "
               "search equals the linear one on ordered lists; getKeyNode reaches the top of the context node's tree (document or "
               "result tree fragment); every sequence of key() calls over any documents answers, call by call, what fresh tables "
               "answer for the document of the XPath context node (independent of history, of the XSLT current node and of a "
-              "name prefix), which is the specified union over the argument's string values. key_spec is also proved without "
-              "hypotheses for the concrete documents and the concrete pattern/use evaluators of the generated fragment. The "
+              "name prefix), a sub-list of that document's document order, which is the specified union over the argument's "
+              "string values; context nodes from several documents in one expression get their own documents' answers. "
+              "key_spec is also proved without hypotheses for the concrete documents and the concrete pattern/use evaluators "
+              "of the generated fragment, and over C09's transcription of XPath::getMatchScore with C09's pattern "
+              "specification as the characterisation (key_spec_c09, for well-formed documents and valid patterns). The "
               "model is tied to the working tree by three translators (a changed fact flips a generated flag the model follows, "
               "or stops generated_overloads_use_context from compiling) and by generated multi-document, multi-module "
               "stylesheets run through the real library and the compiled model (quick 6003 cases, thorough 40813 plus 4003 on "
@@ -55,9 +59,10 @@ LEVEL_NOTE = ("Trusted: Lean kernel; axioms propext/Classical.choice/Quot.sound 
               "documents, assumed of XalanSourceTree); Xalan's XPath engine for match and use (abstract parameters in the general "
               "theorems; the concrete theorem is about the specification-style evaluators of Concrete.lean for the generated "
               "fragment, which the run compares with Xalan's brute-force answers); the strip-awareness of pattern matching is a "
-              "hypothesis of key_spec_strip (C13); generate-id() injective. Covered by the correspondence run only: positional "
+              "hypothesis of key_spec_strip / key_spec_strip_values (C13); the use evaluator is this property's own "
+              "(C02's evaluator is not imported); generate-id() injective. Covered by the correspondence run only: positional "
               "predicates, namespace nodes as use values, rejection of key() inside match/use, sort-key / with-param / AVT call "
-              "sites. Not modelled: node lists spanning several documents in addNodeInDocOrder (C12), template-level evaluation "
+              "sites, namespace nodes as context nodes, node-set arguments and predicates spanning documents. Not modelled: node lists spanning several documents in addNodeInDocOrder (C12), template-level evaluation "
               "order. No known finding is open; four defects found by this check were repaired in /repo (44426a2, 64b58da, "
               "4c14898, 381eb10).")
 DESIGN_REF = "DESIGN.md section 5, C15; design/C15.md"
@@ -68,6 +73,7 @@ THEOREMS = [
     "XalanModel.Props.C15.key_spec",
     "XalanModel.Props.C15.key_lookup_total",
     "XalanModel.Props.C15.key_spec_strip",
+    "XalanModel.Props.C15.key_spec_strip_values",
     "XalanModel.Props.C15.key_node_is_tree_top",
     "XalanModel.Props.C15.imports_merged",
     "XalanModel.Props.C15.key_spec_stylesheet",
@@ -75,6 +81,8 @@ THEOREMS = [
     "XalanModel.Props.C15.generated_overloads_use_context",
     "XalanModel.Props.C15.key_context_document_spec",
     "XalanModel.Props.C15.key_context_document_counterexample",
+    "XalanModel.Props.C15.key_result_of_context_document",
+    "XalanModel.Props.C15.key_multi_context_spec",
     "XalanModel.Props.C15.key_call_spec",
     "XalanModel.Props.C15.key_nodeset_union",
     "XalanModel.Props.C15.key_nodeset_union_partial",
@@ -227,10 +235,11 @@ def judge(case, res):
         return []
     if case.get("expect_compile_error"):
         msg = unhex(iv.split(" ", 1)[1]) if iv.startswith("ERR") and " " in iv else ""
-        if iv.startswith("ERR") and "key() function" in msg:
+        if iv.startswith("ERR") and ("key() function" in msg or "axes are allowed in match patterns" in msg):
             return []
         return [("violation", "key.key-call-inside-use-or-match-accepted",
-                 "an xsl:key whose use/match calls key() must be rejected when the stylesheet is compiled; got: " + (msg or iv)[:200])]
+                 "an xsl:key whose use/match calls key(), or whose match uses the namespace axis, must be rejected when the "
+                 "stylesheet is compiled; got: " + (msg or iv)[:200])]
     if mv.startswith("MODELSTOP") or mv.startswith("bad"):
         return [("corr", "model-rejected", "model driver: " + mv[:200])]
     toks = mv.split()
@@ -238,8 +247,19 @@ def judge(case, res):
     ms = [t[2:] for t in toks if t.startswith("S=")]
     mf = [t[2:] for t in toks if t.startswith("F=")]
     calls = case["calls"]
-    if len(mk) != len(calls) or len(ms) != len(calls) or len(mf) != len(calls):
+    # one model call per context document of a call (G.call_docs); regroup the model's answers per call
+    mdocs = [G.call_docs(c) for c in calls]
+    nm = sum(len(x) for x in mdocs)
+    if len(mk) != nm or len(ms) != nm or len(mf) != nm:
         return [("corr", "model-reply-shape", mv[:200])]
+    mk0, ms0, mf0 = mk, ms, mf
+    mk, ms, mf, pos = [], [], [], 0
+    for ds in mdocs:
+        part_k, part_s = mk0[pos:pos + len(ds)], ms0[pos:pos + len(ds)]
+        mk.append("ERR" if "ERR" in part_k else list(zip(ds, part_k)))
+        ms.append("ERR" if "ERR" in part_s else list(zip(ds, part_s)))
+        mf.append("".join(sorted(set("".join(f for f in mf0[pos:pos + len(ds)] if f != "-")))) or "-")
+        pos += len(ds)
     expect_err = "ERR" in mk
     if iv == "NOTRUN":
         return []
@@ -289,18 +309,24 @@ def judge(case, res):
         except KeyError as e:
             probs.append(("violation", "key.foreign-node[call %d]" % i, "key()/brute force returned a node of no listed document: %s" % e))
             continue
-        root = (c["doc"], 0)
         desc = "call %d %s" % (i, json.dumps(c, sort_keys=True))
-        modelK = parse_ids(mk[i]); specS = parse_ids(ms[i])
+        cdocs = mdocs[i]
+        # model answers as (document, number) pairs, the documents in the order of the model calls
+        modelK = None if mk[i] == "ERR" else [(d, j) for (d, ids) in mk[i] for j in parse_ids(ids)]
+        specS = None if ms[i] == "ERR" else sorted((d, j) for (d, ids) in ms[i] for j in parse_ids(ids))
         # in-transformation comparison count(K|B)=count(K)=count(B) (properties.jsonl observe_at); only meaningful when the
         # document node is not involved (it is kept out of every union, see gen/c15_gen.py brute)
-        trust_counts = not R and root not in K
-        if len(set(B)) != len(B) or any(x not in (root,) for x in R):
+        roots = [(d, 0) for d in cdocs]
+        trust_counts = not R and not any(x in K for x in roots)
+        if len(set(B)) != len(B) or any(x not in roots for x in R):
             probs.append(("corr", "oracle[call %d]" % i, "%s: brute-force node-set malformed: B=%s R=%s" % (desc, B, R)))
             continue
         Bset = set(B) | set(R)
-        Bidx = sorted(j for (_, j) in Bset)
-        Kidx = [j for (_, j) in K]
+        Bidx = sorted(Bset)
+        Kidx = K
+
+        def part(l, d):
+            return [j for (dd, j) in l if dd == d]
         # --- the same call from a second call site (with-param select / attribute value template / sort key), evaluated
         # while the XSLT current node is elsewhere: must agree with the variable-select site
         if xg:
@@ -324,20 +350,23 @@ def judge(case, res):
         bad = None
         if (trust_counts and not (ck == cb == cu and ck == len(K))) or set(K) != Bset:
             bad = "key() = %s but the defining expression selects %s (count K/B/K|B = %d/%d/%d)" % (Kidx, Bidx, ck, cb, cu)
-        elif any(d != c["doc"] for (d, _) in K):
-            bad = "key() returned nodes of another document: %s" % K
-        elif Kidx != sorted(set(Kidx)):
+        elif any(d not in cdocs for (d, _) in K):
+            bad = "key() returned nodes of a document no context node lies in: %s" % K
+        elif len(set(K)) != len(K) or any(part(K, d) != sorted(part(K, d)) for d in cdocs):
             bad = "key() result not a duplicate-free document-ordered node-set: %s" % Kidx
+        # the model answers per context document; within one document the order must be the model's
+        same_as_model = modelK is not None and set(K) == set(modelK) and all(part(K, d) == part(modelK, d) for d in cdocs) \
+            and (len(cdocs) > 1 or K == modelK)
         if bad:
             # a violation is attributed to the documented deviations only when the as-written model (which carries
             # exactly those deviations) predicts the implementation's answer exactly; F names the deviations that
             # shape the model's answer for this call
-            if Kidx == modelK and mf[i] != "-":
+            if same_as_model and mf[i] != "-":
                 for f in mf[i]:
                     probs.append(("violation", "key.%s: %s" % (DEVIATIONS[f], desc), bad))
             else:
                 probs.append(("violation", "key.mismatch: %s" % desc, bad + "; as-written model: %s" % modelK))
-        elif Kidx != modelK:
+        elif not same_as_model:
             # --- correspondence with the Lean model
             probs.append(("corr", "model-K[call %d]" % i, "%s: implementation %s, model %s" % (desc, Kidx, modelK)))
         if specS is not None and Bidx != specS:
@@ -364,7 +393,7 @@ def sub_cases(case):
         if sid != 0 and sid not in used and not any(p == sid for (_, p, _) in c["sheets"]):
             yield dict(c, sheets=[s for s in c["sheets"] if s[0] != sid])
     last = len(c["docs"]) - 1
-    if last > 0 and not any(x["doc"] == last or x.get("argdoc") == last or x.get("cur") == last for x in c["calls"]):
+    if last > 0 and not any(last in (x["doc"], x.get("argdoc"), x.get("cur"), x.get("doc2"), x.get("argdoc2")) for x in c["calls"]):
         yield dict(c, docs=c["docs"][:last], rtf=[k for k in c.get("rtf", []) if k != last])
     for k in c.get("rtf", []):
         yield dict(c, rtf=[j for j in c["rtf"] if j != k])
@@ -372,7 +401,7 @@ def sub_cases(case):
         yield dict(c, preserve=None)
     for k, d in enumerate(c["docs"]):
         for nd in shrink_tree(d):
-            yield dict(c, docs=c["docs"][:k] + [nd] + c["docs"][k + 1:], calls=[dict(x, ctx=0, **({"curctx": 0} if "curctx" in x else {})) for x in c["calls"]])
+            yield dict(c, docs=c["docs"][:k] + [nd] + c["docs"][k + 1:], calls=[dict(x, ctx=(0 if x["ctx"] != "ns" else "ns"), **({"curctx": 0} if "curctx" in x else {})) for x in c["calls"]])
 
 
 def shrink_tree(t):
@@ -533,6 +562,7 @@ def run(ctx):
     ctx.translate("c15_keytable")
     ctx.lean("XalanModel.Props.C15", THEOREMS, extra_targets=["xm_c15"])
     model = ctx.exe("xm_c15")
+    c09_instance(ctx)
     harness = common.build_harness("c15_keys", ["c15_keys.cpp"], flavor="hooks", sanitize=False)
     if model is None:
         return
@@ -568,6 +598,12 @@ def run(ctx):
             ctx.hist["with result-tree-fragment document"] = ctx.hist.get("with result-tree-fragment document", 0) + 1
         for c in case["calls"]:
             ctx.hist["call:" + c["kind"]] = ctx.hist.get("call:" + c["kind"], 0) + 1
+            if c.get("doc2") is not None:
+                ctx.hist["context nodes from two documents in one expression"] = ctx.hist.get("context nodes from two documents in one expression", 0) + 1
+            if c.get("argdoc2") is not None:
+                ctx.hist["node-set argument spanning two documents"] = ctx.hist.get("node-set argument spanning two documents", 0) + 1
+            if c["ctx"] == "ns":
+                ctx.hist["namespace node as context node"] = ctx.hist.get("namespace node as context node", 0) + 1
             if c.get("form"):
                 kk = "call in predicate, current node in %s document, %s name" % (
                     "another" if c.get("cur") != c["doc"] else "the same", "prefixed" if c["name"].startswith("{") else "plain")
@@ -633,6 +669,27 @@ def run(ctx):
     except Exception:
         pass
     ctx.extra["generated_skipEmptyRefs"] = skipflag
+
+
+C09_THEOREMS = ["XalanModel.C15.Concrete.key_spec_c09"]
+
+
+def c09_instance(ctx):
+    """key_spec over C09's transcription of XPath::getMatchScore (lean/XalanModel/C15/C09Instance.lean).  It imports C09's
+    modules, which depend on C09's / C10's generated files: they are regenerated here (without registering obligations of
+    another property), and when C09's own property module does not build on this tree the instance is skipped with a
+    note — that is C09's alarm to raise, not C15's."""
+    import sys
+    with common.Lock("lake"):
+        for t in ("c09_keytable", "c10_priority"):
+            common.sh([sys.executable, os.path.join(common.ROOT, "translate", t + ".py")], cwd=common.ROOT)
+    rc, out = common.lake_build(["XalanModel.Props.C09"])
+    if rc != 0:
+        common.log("  note: XalanModel.Props.C09 does not build on this tree; key_spec_c09 (C15 over C09's matcher) not checked")
+        ctx.extra["c09_instance"] = "skipped: XalanModel.Props.C09 does not build (reported by check C09)"
+        return
+    ctx.lean("XalanModel.C15.C09Instance", C09_THEOREMS)
+    ctx.extra["c09_instance"] = "checked"
 
 
 def replay(ctx, path):
